@@ -86,7 +86,8 @@ func mathCosh(L *LState) int {
 }
 
 func mathDeg(L *LState) int {
-	L.Push(LNumber(float64(L.CheckNumber(1)) * 180 / math.Pi))
+	// lmathlib.c: x / RADIANS_PER_DEGREE (x * 180 overflows for x above 1e306)
+	L.Push(LNumber(float64(L.CheckNumber(1)) / (math.Pi / 180)))
 	return 1
 }
 
@@ -183,7 +184,8 @@ func mathPow(L *LState) int {
 }
 
 func mathRad(L *LState) int {
-	L.Push(LNumber(float64(L.CheckNumber(1)) * math.Pi / 180))
+	// lmathlib.c: x * RADIANS_PER_DEGREE (x * pi overflows for x above 5.7e307)
+	L.Push(LNumber(float64(L.CheckNumber(1)) * (math.Pi / 180)))
 	return 1
 }
 
